@@ -20,6 +20,7 @@ namespace primesieve {
 
 class ParallelSieve : public PrimeSieve
 {
+  PRIMESIEVE_VERIF_FRIEND
 public:
   using PrimeSieve::sieve;
 
